@@ -15,7 +15,11 @@ theorem kindOf_ne_slr (c : TCtx) (env : Env) (h : Expr) (hs : h ≠ .selected) :
   | selected => exact absurd rfl hs
   | var n =>
     simp only [kindOf]
-    split <;> decide
+    split
+    · decide
+    · decide
+    · decide
+    · split <;> decide
   | enum nsp n =>
     simp only [kindOf]
     split
